@@ -288,7 +288,13 @@ State:
 			}
 			var num protowire.Number
 			if n := tag >> 3; n < uint64(protowire.MinValidNumber) || n > uint64(protowire.MaxValidNumber) {
-				return out, ValidationInvalid
+				// MessageSet allows for larger field numbers than normal
+				// (see protowire.DecodeTag).
+				inMessageSet := flags.ProtoLegacy && st.typ != validationTypeMap && st.mi != nil && st.mi.isMessageSet
+				if !inMessageSet || n < uint64(protowire.MinValidNumber) || n > math.MaxInt32 {
+					return out, ValidationInvalid
+				}
+				num = protowire.Number(n)
 			} else {
 				num = protowire.Number(n)
 			}
